@@ -208,9 +208,77 @@ def run_builder_case(case: Dict[str, Any]) -> Dict[str, Any]:
     return r
 
 
+def run_rejected_then_more(case: Dict[str, Any]) -> Dict[str, Any]:
+    """A conversation the proxy has decided to end (garbage pipelined behind a request whose large answer is still queued for a
+    client that does not read) is over: whatever the client sends afterwards - a perfectly valid request included - is not
+    served, in particular never forwarded upstream."""
+    rng = random.Random('c06r:%s:%s' % (case['seed'], case['i']))
+    flags = make_flags(_FLAGS['proxy'], cache_key='c06:proxy')
+    shim.S.reset()
+    resolver.reset()
+    rig = StepRig(flags, case.get('mode', 'local'))
+    viol: List[Dict[str, Any]] = []
+    obs: Dict[str, int] = {'kind:rejected-then-more': 1}
+    outc = 'error'
+    try:
+        origin = rig.add_origin('127.0.%d.%d' % (rng.randint(0, 250), rng.randint(2, 250)))
+        up = origin.hostport
+        client = rig.add_client('tcp', rcvbuf=4096)
+        client.send(b'GET http://%s/first HTTP/1.1\r\nHost: %s\r\n\r\n' % (up, up))
+        box: Dict[str, Any] = {}
+
+        def acc() -> bool:
+            p = origin.accept()
+            if p is not None:
+                box['oc'] = p
+            return 'oc' in box
+        rig.until(acc, [])
+        oc = box['oc']
+        rig.until(lambda: b'\r\n\r\n' in oc.rx, [oc])
+        body = G.coded(b'R', case['size'])
+        data = b'HTTP/1.1 200 OK\r\nContent-Length: %d\r\nX-From-Origin: 1\r\n\r\n' % len(body) + body
+        sent = 0
+        for _ in range(6000):
+            n = oc.send(data[sent:sent + 262144])
+            if n > 0:
+                sent += n
+            rig.step()
+            if sent >= len(data):
+                break
+        first_len = len(oc.rx)
+        client.send(case['garbage'].encode('latin-1'))
+        rig.step(rng.randint(3, 12))
+        client.send(b'GET http://%s/after HTTP/1.1\r\nHost: %s\r\n\r\n' % (up, up))
+        for _ in range(200):
+            rig.step()
+            oc.pump()
+            client.pump(65536)
+        rig.settle([oc], quiet=6)
+        later = bytes(oc.rx[first_len:])
+        others = [c for c in origin.conns if c is not oc]
+        for c in others:
+            c.pump()
+        if b'/after' in later or any(b'/after' in bytes(c.rx) for c in others):
+            viol.append({'key': 'proxy|rejected-then-more|request-served-after-the-connection-was-rejected',
+                         'detail': {'garbage': case['garbage'], 'origin_saw_later': later[:200], 'size': case['size']}})
+        else:
+            obs['nothing_forwarded_after_rejection'] = 1
+        outc = 'rejected'
+    except LoopDied as e:
+        viol.append({'key': 'proxy|rejected-then-more|loop-died:%s' % e.where(), 'detail': {'tb': e.tb[-900:]}})
+        outc = 'loop-died'
+    finally:
+        rig.close()
+    obs['outcome:' + outc] = 1
+    return {'viol': viol, 'nontrivial': True, 'sig': 'rtm/%s/%d/%s' % (case['garbage'], case['size'], case.get('mode')), 'obs': obs,
+            'sets': {'outcomes': {outc}}, 'sample': {'case': case}}
+
+
 def run_case(case: Dict[str, Any]) -> Dict[str, Any]:
     if case.get('kind') == 'builder':
         return run_builder_case(case)
+    if case.get('kind') == 'rejected-then-more':
+        return run_rejected_then_more(case)
     rng = random.Random('c06:%s:%s' % (case['seed'], case['i']))
     cfg = case.get('cfg', 'proxy')
     flags = make_flags(_FLAGS[cfg], cache_key='c06:' + cfg)
@@ -382,6 +450,8 @@ def cases(tier: str, seed: int):
             yield mk(kind='oversize', what=w, seg=sg, cfg=rng.choice(['proxy', 'web']))
     for k in range(1500 if tier == 'quick' else 45000):
         yield mk(kind='builder', law=['L2', 'L7', 'L8'][k % 3])
+    for k, garbage in enumerate(['BOGUS\r\n\r\n', 'GET\r\n\r\n', '\x00\x01\x02\r\n\r\n', 'GET ftp://x/ HTTP/1.1\r\n\r\n'] * (2 if tier == 'quick' else 20)):
+        yield mk(kind='rejected-then-more', garbage=garbage, size=[3000000, 8000000][k % 2], mode='local' if k % 3 else 'remote')
     for a in range(11):
         for b2 in range(11):
             for shape in (['cl-cl'] if tier == 'quick' and (a + b2) % 3 else ['cl-cl', 'triple']):
@@ -399,7 +469,7 @@ def cases(tier: str, seed: int):
 def floors(tier: str) -> Dict[str, int]:
     return {'builder:L2': 300, 'builder:L7': 300, 'builder:L8': 300,'outcome:rejected': 300, 'outcome:waiting': 100, 'outcome:closed-silently': 5, 'kind:trunc': 300,
             'kind:mutate': 200, 'kind:random': 200, 'kind:nonutf8': 50, 'distinct:outcomes': 5,
-            'kind:dup-framing': 150}
+            'kind:dup-framing': 150, 'nothing_forwarded_after_rejection': 6}
 
 
 if __name__ == '__main__':
